@@ -53,7 +53,9 @@ def selfvalidate(rep, pid):
                        ("return_temp", "every `return <expr>` written `ret_value = <expr>; return ret_value`"),
                        ("len_tests", "emptiness tests respelled (len(x) != 0 as len(x) > 0, == 0 as < 1, > 0 as >= 1)"),
                        ("nest_and", "every `if a and b:` without else written as nested ifs"),
-                       ("else_after_return", "code after `if c: ...return/raise/continue/break` moved into an else branch")):
+                       ("else_after_return", "code after `if c: ...return/raise/continue/break` moved into an else branch"),
+                       ("module_alias", "package modules bound under other names (import matid.geometry as mgeom; constants as consts)"),
+                       ("keyword_arguments", "every positional argument of a package function / method / constructor call passed by keyword")):
         vs.append(dict(pid=pid, name=f"twin: {what}", expect="silent", edits=[], tier="quick", mentions=None, transform=kind))
     with cf.ThreadPoolExecutor(min(16, os.cpu_count() or 4)) as ex:
         res = list(ex.map(selftest.run_variant, vs))
@@ -106,6 +108,13 @@ def main(argv=None):
     try:
         mod = importlib.import_module(f"vstatic.rules.{pid.lower()}")
         mod.run(rep, ctx)
+        if ctx._tables is not None and pid != "C14":
+            # every obligation of this property that was decided on the table literals presupposes that the library uses those literals
+            from . import symrules
+            rid = f"R{pid[1:]}.T"
+            rep.rule(rid, "the built-in symmetry tables the library uses at run time are the literals of the table file (no import-time code of "
+                          "the table module rewrites their values; shared with C14.readonly)")
+            symrules.tables_read_only(rep, ctx.model, rid, only_import=True)
     except AnalysisError as e:
         rep.error(str(e))
     except Exception as e:  # a traceback must never look like a verdict
